@@ -27,12 +27,14 @@ ASSUMPTIONS = [
 UU = ["1", "12", "2"]     # lane-id style uuids, one being a substring of another
 CAMS_TLR = ["CAM_TRAFFIC_LIGHT", "CAM_TRAFFIC_LIGHT_NEAR"]
 CAMS_GEN = ["CAM_FRONT", "CAM_BACK"]
+CAMS_PREFIX, UU_PREFIX = ["CAM_FRONT", "CAM_FRONT_LEFT"], ["1", "left_1", "front_left_1"]
+CAMS_PREFIX2, UU_PREFIX2 = ["CAM_BACK", "CAM_BACK_LEFT"], ["7", "left_7", "back_left_7"]
 TLR_LABELS = ["GREEN", "RED", "UNKNOWN"]
 GEN_LABELS = ["CAR", "PEDESTRIAN"]
 
 
-def _sets(maxn, labels, cams):
-    slots = [(u, c) for u in UU for c in cams]
+def _sets(maxn, labels, cams, uuids=None):
+    slots = [(u, c) for u in (uuids or UU) for c in cams]
     for n in range(0, maxn + 1):
         for sel in itertools.combinations(slots, n):
             for labs in itertools.product(labels, repeat=n):
@@ -49,6 +51,9 @@ def units(tier, seed):
         for k in range(nch):
             u.append(dict(path=path, n=n, chunk=[k, nch]))
     u.append(dict(path="manager"))
+    # generic objects of cameras whose names extend one another, with uuids that spell the difference (cam_front + "left_1" / cam_front_left + "1")
+    for k in range(4):
+        u.append(dict(path="generic_prefix", chunk=[k, 4]))
     # every ordered pair of the light states of the golden table, one light per side
     for k in range(4):
         u.append(dict(path="tlr_all", chunk=[k, 4]))
@@ -65,6 +70,15 @@ def run_unit(unit, acc):
         for E in _sets(2, TLR_LABELS, CAMS_TLR[:1]):
             for Gs in _sets(2, TLR_LABELS, CAMS_TLR[:1]):
                 check_case(dict(path="manager", E=[list(x) for x in E], G=[list(x) for x in Gs]), acc)
+        return
+    if unit["path"] == "generic_prefix":
+        ES = list(_sets(2, GEN_LABELS[:1], CAMS_PREFIX, UU_PREFIX)) + list(_sets(1, GEN_LABELS, CAMS_PREFIX2, UU_PREFIX2))
+        k, n = unit["chunk"]
+        for i, E in enumerate(ES):
+            if i % n != k:
+                continue
+            for Gs in ES:
+                check_case(dict(path="generic", E=[list(x) for x in E], G=[list(x) for x in Gs], first=False), acc)
         return
     if unit["path"] == "tlr_all":
         from mc.ref import labels as RL
